@@ -70,7 +70,7 @@ Definition parse_query (e : env) (raw : node) (src : string) (positional : bool)
       let stmt2 := kid "Stmt" raw2 in
       let rvs := search (is_kind "RangeVar") stmt2 in
       do refs0 <- find_parameters stmt2;
-      let refs := if positional then refs0 else sort_refs (unique_refs [] refs0) in
+      let refs := if positional then positional_refs refs0 else sort_refs (unique_refs [] refs0) in
       let edits1 :=
         if positional
         then map (fun r => mkEdit (loc_of (pr_ref r) - int_of "StmtLocation" raw2)
